@@ -430,6 +430,7 @@ class Program:
                                 if d == 0:
                                     break
                         body = body[j + 1:].strip()
+                    body = re.split(r'\s+where\s+', body, maxsplit=1)[0].strip()
                     parts = re.split(r'\s+for\s+', body, maxsplit=1)
                     if len(parts) == 2:
                         res = (parts[0].strip(), parts[1].strip())
